@@ -72,6 +72,10 @@ func c05Tagify(s string) string {
 }
 
 func c05Judge(c *Ctx, cs *Case) {
+	if cs.Gen == "repl-after-stray" {
+		c20Judge(c, cs)
+		return
+	}
 	c.Begin(cs)
 	if cs.Mode == "cli" {
 		m := RunModel(cs.Src, "", false, 0)
@@ -317,6 +321,30 @@ func c05Run(c *Ctx) {
 			}
 		}
 	}
+	// 3c. a for statement entered again while an earlier execution of it is still running (the loop body,
+	// condition or increment calls the function the loop stands in): every execution has its own counter
+	for _, src := range []string{
+		pre + Lines(Fun("walk", "d", " "+For(Var("i", "0"), "i < 2", "i = i + 1", "{ "+Print(`"d" + d + " i" + i`)+" "+If("d < 2", "{ walk(d + 1); }")+" "+Print(`"back d" + d + " i" + i`)+" }")+" "), "walk(0);"),
+		pre + Lines(Fun("dfs", "t", " "+Var("s", "0")+" "+For(Var("k", "0"), "k < "+BI("len", "t"), "k = k + 1", "{ "+If("t[k] == nil", Continue())+" "+If("t[k] == -1", Break())+" "+IfElse(BI("len", "[t[k]]")+" == 1 && t[k] == t[k] + 0", "{ s = s + t[k]; }", "{ s = s + 0; }")+" }")+" "+Ret("s")+" "), Print("dfs([1, 2, nil, 3, -1, 100])"), Print("dfs([5, 5])")),
+		pre + Lines(Fun("sumTree", "t", " "+Var("s", "t[0]")+" "+For(Var("k", "1"), "k < "+BI("len", "t"), "k = k + 1", "{ s = s + sumTree(t[k]); }")+" "+Ret("s")+" "), Print("sumTree([1, [2, [4], [5]], [3, [6, [7]]]])"), Print("sumTree([10, [20], [30], [40]])")),
+		pre + Lines(Var("log", `""`), Fun("r", "n", " "+For(Var("i", "0"), `c("cond n" + n, i < 2)`, "i = i + r2(n, i)", "{ log = log + n + i + \" \"; }")+" "+Ret("1")+" "), Fun("r2", "n, i", " "+If("n > 0 && i == 0", "{ r(n - 1); }")+" "+Ret("1")+" "), "r(2);", Print("log")),
+		pre + Lines(Fun("comb", "pre, n", " "+If("n == 0", "{ "+Print("pre")+" "+Ret("")+" }")+" "+For(K["var"]+" i = 0, lim = 2;", "i < lim", "i = i + 1", "{ comb(pre + i, n - 1); }")+" "), `comb("", 3);`),
+	} {
+		if c.Mine() {
+			c05Judge(c, &Case{Gen: "reentrant-loops", Src: src})
+		}
+		if c.Mine() {
+			c05Judge(c, &Case{Gen: "reentrant-loops-cli", Mode: "cli", Src: src})
+		}
+	}
+	// 3d. interactive mode: after a line that ended in a stray signal (or any runtime error), later lines with
+	// loops and branches run as in a fresh session
+	for _, bad := range []string{Break(), Continue(), Ret("1"), Print("1 / 0"), If(True(), "{ "+Break()+" }")} {
+		lines := []string{bad, For(Var("i", "0"), "i < 2", "i = i + 1", "{ "+Print("i")+" }"), Var("n", "0") + " " + While("n < 2", "{ n = n + 1; "+Print("n")+" }"), IfElse("1 < 2", Print(`"then"`), Print(`"else"`)), bad, IfElse("2 < 1", Print(`"then"`), "{ "+Print(`"else"`)+" }"), Print("3")}
+		if c.Mine() {
+			c05Judge(c, &Case{Gen: "repl-after-stray", Src: strings.Join(lines, "\n"), X: map[string]string{"final_newline": "1", "all_self": "1"}})
+		}
+	}
 	// 4c. long-running loops: more than a million rounds in one run, in one loop, in consecutive loops, nested
 	for _, src := range []string{
 		Lines(Var("i", "0"), While("i < 1200000", "{ i = i + 1; }"), Print("i")),
@@ -351,6 +379,6 @@ func init() {
 		Assumptions: []string{"every generated loop is bounded by construction; programs the model cannot finish in 200000 steps are skipped"},
 		Run:         c05Run,
 		Judge:       c05Judge,
-		MustCount:   func(c *Ctx) []string { return []string{"gen:loop-skeletons", "gen:empty-bodies", "gen:long-running-loops", "gen:arm-selection", "gen:stray-signals", "gen:stray-signals-after-history", "gen:else-if-chains", "gen:comparison-conditions", "breaks_taken", "continues_taken", "then_arms", "else_arms", "fault:StrayBreak", "fault:StrayContinue", "fault:StrayReturn", "cli_runs"} },
+		MustCount:   func(c *Ctx) []string { return []string{"gen:loop-skeletons", "gen:empty-bodies", "gen:long-running-loops", "gen:arm-selection", "gen:stray-signals", "gen:stray-signals-after-history", "gen:else-if-chains", "gen:comparison-conditions", "gen:reentrant-loops", "gen:repl-after-stray", "breaks_taken", "continues_taken", "then_arms", "else_arms", "fault:StrayBreak", "fault:StrayContinue", "fault:StrayReturn", "cli_runs"} },
 	})
 }
